@@ -348,7 +348,9 @@ def c18_3(ctx):
               'an #include line may carry a comment after the closing quote (the pattern is not anchored at the end of the line, or allows `;...`)',
               'the include pattern must match up to the end of the line: `#include "x.asm" ; note` is rejected')
     wl = [w for w in walk_no_nested(pl.node) if isinstance(w, ast.While)]
-    ok = len(wl) == 1 and unparse(wl[0].test) == 'len(instruction_str) > 0'
+    from engine.lin import to_cnf as _to_cnf
+    # (every spelling of "the remaining text is not empty" is the one literal truthy(instruction_str))
+    ok = len(wl) == 1 and _to_cnf(wl[0].test, True, resolver(ctx, pl, inline=False)) == [frozenset({('truthy', 'instruction_str', True)})]
     ctx.check(ok, 'surface:compound-lines', pl.site(wl[0]) if wl else pl.site(), 'statements on one line are consumed one after another until the line is empty', '')
     lf = ctx.repo.func('bespokeasm.assembler.line_object.label_line.LabelLine.factory')
     init = ctx.repo.func('bespokeasm.assembler.line_object.label_line.LabelLine.__init__')
